@@ -42,13 +42,16 @@ Proof.
   assert (W : wsum p [a; b; c] = 1).
   { rewrite tri_wsum, !contrib_orient.
     pose proof (bary_y a b c p) as I.
-    set (o1 := orient a b p) in *. set (o2 := orient b c p) in *. set (o3 := orient c a p) in *.
+    remember (orient a b p) as o1 eqn:E1. remember (orient b c p) as o2 eqn:E2. remember (orient c a p) as o3 eqn:E3.
+    clear NB. unfold orient in E1, E2, E3.
     replace (0 <? o1) with true by lia. replace (0 <? o2) with true by lia. replace (0 <? o3) with true by lia.
     replace (o1 <? 0) with false by lia. replace (o2 <? 0) with false by lia. replace (o3 <? 0) with false by lia.
     rewrite !andb_true_r, !andb_false_r.
     destruct (snd a <=? snd p) eqn:A; destruct (snd b <=? snd p) eqn:B; destruct (snd c <=? snd p) eqn:C;
       cbn [andb];
-      repeat match goal with |- context [?x <? ?y] => destruct (x <? y) eqn:? end; try lia; nia. }
+      repeat match goal with |- context [?x <? ?y] => destruct (x <? y) eqn:? end; try lia;
+      try (exfalso; assert (snd a = snd p /\ snd b = snd p /\ snd c = snd p) as (Ea & Eb & Ec) by nia;
+           rewrite Ea, Eb in E1; nia); nia. }
   rewrite insideOnly_spec, wind_spec, NB, W. split; reflexivity.
 Qed.
 
@@ -61,12 +64,15 @@ Proof.
   assert (W : wsum p [a; b; c] = -1).
   { rewrite tri_wsum, !contrib_orient.
     pose proof (bary_y a b c p) as I.
-    set (o1 := orient a b p) in *. set (o2 := orient b c p) in *. set (o3 := orient c a p) in *.
+    remember (orient a b p) as o1 eqn:E1. remember (orient b c p) as o2 eqn:E2. remember (orient c a p) as o3 eqn:E3.
+    clear NB. unfold orient in E1, E2, E3.
     replace (0 <? o1) with false by lia. replace (0 <? o2) with false by lia. replace (0 <? o3) with false by lia.
     replace (o1 <? 0) with true by lia. replace (o2 <? 0) with true by lia. replace (o3 <? 0) with true by lia.
     rewrite !andb_true_r, !andb_false_r.
     destruct (snd a <=? snd p) eqn:A; destruct (snd b <=? snd p) eqn:B; destruct (snd c <=? snd p) eqn:C;
       cbn [andb];
-      repeat match goal with |- context [?x <? ?y] => destruct (x <? y) eqn:? end; try lia; nia. }
+      repeat match goal with |- context [?x <? ?y] => destruct (x <? y) eqn:? end; try lia;
+      try (exfalso; assert (snd a = snd p /\ snd b = snd p /\ snd c = snd p) as (Ea & Eb & Ec) by nia;
+           rewrite Ea, Eb in E1; nia); nia. }
   rewrite insideOnly_spec, wind_spec, NB, W. split; reflexivity.
 Qed.
